@@ -86,6 +86,9 @@ func actAllocateRun(prop string, o actOpts) {
 			}
 			active, bound, nominated := 0, 0, 0
 			for _, t := range aj.tasks {
+				if t.Status == pod_status.Failed || t.Status == pod_status.Succeeded {
+					continue // a dead member does not count towards the minimum
+				}
 				if t.Status != pod_status.Pending {
 					active++
 				}
@@ -96,8 +99,9 @@ func actAllocateRun(prop string, o actOpts) {
 					nominated++
 				}
 			}
-			vr.Assert(active == 0 || active >= len(aj.tasks), "C03.allocate-action-places-whole-gang-or-nothing")
-			vr.Assert(bound == 0 || bound >= len(aj.tasks), "C03.allocate-action-binds-whole-gang-or-nothing")
+			min := len(aj.tasks) // minMember == gang size
+			vr.Assert(active == 0 || active >= min, "C03.allocate-action-places-whole-gang-or-nothing")
+			vr.Assert(bound == 0 || bound >= min, "C03.allocate-action-binds-whole-gang-or-nothing")
 			vr.Assert(nominated == 0 || bound == 0, "C03.partly-waiting-gang-is-nominated-as-a-whole")
 			vr.Cover(nominated > 0, "C03.cover.gang-nominated")
 			vr.Cover(bound > 0, "C03.cover.gang-bound")
@@ -140,6 +144,13 @@ func VerifC01_AllocateAction() {
 // BOUND: 1..2 nodes, gang j0 of 2 tasks (minMember 2, one shared symbolic cpu request) + 1 single-pod job, 0..1 existing pod on n0 running or terminating
 func VerifC03_AllocateGang() {
 	actAllocateRun("C03", actOpts{nNodes: vr.Choose("nodes", 2) + 1, nJobs: 2, bits: 8, sameQueue: true, existing: vr.Choose("existing", 2), gang: 2})
+}
+
+// VerifC03_AllocateGangWithDeadMember: a gang of three (minMember 3) one of whose members may have
+// failed and not been recreated: the two that are left are never bound on their own.
+// BOUND: 1 node, gang of 3 tasks (minMember 3, last member pending or failed), one shared symbolic cpu request
+func VerifC03_AllocateGangWithDeadMember() {
+	actAllocateRun("C03", actOpts{nNodes: 1, nJobs: 1, bits: 8, sameQueue: true, gang: 3, gangDead: true})
 }
 
 // VerifC08_AllocateAction: queue limits and the non-preemptible quota rule hold at every level after
